@@ -21,7 +21,7 @@ import (
 
 // C20 — key material and identities are stable and self-consistent.
 //
-// Explicit-state BFS over two keystore instances K0,K1 on one datastore and ids {a,b}:
+// Explicit-state BFS over two keystore instances K0,K1 on one datastore and ids {a, p/a (, q:a)}:
 // create(k,id) (only when absent), get(k,id), has(k,id), ident(k,id) (CreateIdentity),
 // fill(k) (create 128 filler keys: evicts the whole LRU), reopen(k) (fresh instance on the
 // same datastore). Model: id -> key bytes, id -> first identity. Oracle: get returns the
@@ -301,7 +301,7 @@ func c20Run(p *run.Part, tier string) {
 	var alpha []ksOp
 	for _, k := range []string{"create", "get", "has", "ident"} {
 		for i := 0; i < 2; i++ {
-			for _, id := range []string{"a", "b"} {
+			for _, id := range ksIDs(tier) {
 				alpha = append(alpha, ksOp{K: k, I: i, ID: id})
 			}
 		}
@@ -376,6 +376,15 @@ func c20Run(p *run.Part, tier string) {
 		p.Sample(4, ksPath(frontier[len(frontier)/2]))
 		p.Sample(4, ksPath(frontier[len(frontier)-1]))
 	}
+}
+
+// ksIDs: a plain id and a structured one whose last path segment is the plain id (a datastore key has
+// namespaces; a cache keyed by less than the full id would confuse them); thorough adds a "type:value" id.
+func ksIDs(tier string) []string {
+	if tier == "thorough" {
+		return []string{"a", "p/a", "q:a"}
+	}
+	return []string{"a", "p/a"}
 }
 
 func parallelFor(n int, fn func(i int)) {
